@@ -286,6 +286,12 @@ func (ch c08) multiBind(c *core.Ctx, env *hs.Env, rng *core.Rng) {
 	cols := wire.Columns{{Name: "t", Oid: oid.T_text, Width: -1}, {Name: "i", Oid: oid.T_int4, Width: -1}, {Name: "b", Oid: oid.T_bytea, Width: -1}}
 	row := []any{"txt", int32(258), []byte{1, 2, 3}}
 	st := &hs.Stmt{ID: "mb", Cols: cols, Params: []oid.Oid{oid.T_text, oid.T_text}, Ops: []hs.Op{{K: "row", Vals: row}, {K: "complete", Tag: "SELECT 1"}}}
+	if rng.Intn(3) == 0 {
+		// the statement's first Row call carries too few values (none, one, two) and is refused; the handler
+		// goes on with the proper row, which is encoded the way its portal's Bind asked for
+		st.Ops = append([]hs.Op{{K: "arity", Vals: row[:rng.Intn(3)]}}, st.Ops...)
+		c.Count("multi_bind_batches_whose_first_row_is_refused", 1)
+	}
 	sess := &hs.Sess{Progs: map[string]*hs.Prog{"q": {Stmts: []*hs.Stmt{st}}}}
 	cl := hs.NewClient(env.Dial(sess))
 	if err := cl.StartupOK("u"); err != nil {
